@@ -529,6 +529,24 @@ OnSweep(e) ==
 OnDied(e) ==
   Result([st EXCEPT !.over = TRUE], {V("ANY", "NoCrash", <<e.how, e.code>>)})
 
+(* memory_pool_collection::reserve(node_size, capacity): "puts capacity bytes from the arena onto the free list":   *)
+(* what leaves capacity_left() (or comes with a new block) arrives in pool_capacity_left() of that bucket             *)
+OnReserve(e) ==
+  LET o == Obj(e.o)
+      ns == NodeUpper(o, e.sz)
+      fence == cfg.fence
+      okr == e.r = "ok"
+  IN Result([st EXCEPT !.pend = <<>>, !.inj = 0],
+       Chk(~(okr /\ o.type # "small" /\ e.fn0 >= 0 /\ e.fn1 >= 0) \/ e.fn1 - e.fn0 >= e.req \div (ns + 2 * fence),
+           "C18", "ReservedMemoryArrivesInBucket", <<o.type, o.bd, e.sz, e.req, e.fn0, e.fn1, e.cap0, e.cap1>>)
+       \cup Chk(~(okr /\ o.type = "small" /\ e.req >= 2 * ns + 64 /\ e.fn0 >= 0) \/ e.fn1 > e.fn0,
+                "C18", "ReservedMemoryArrivesInBucket", <<o.type, o.bd, e.sz, e.req, e.fn0, e.fn1>>)
+       \* (a request that cannot hold a single node reserves nothing)
+       \cup Chk(~(okr /\ e.ups = 0 /\ o.type # "small" /\ e.fn0 >= 0 /\ e.fn1 > e.fn0) \/ e.cap0 - e.cap1 >= (e.fn1 - e.fn0) * ns,
+                "C18", "ReservationLeavesCapacityLeft", <<e.req, e.cap0, e.cap1, e.fn0, e.fn1>>)
+       \cup Chk(okr \/ e.r \in OomFamily \cup SizeFamily \/ (e.r = "throw:injected" /\ e.upf > 0), "C03", "ThrowIsLibraryFamily", <<"reserve", e.r>>)
+       \cup NoStrayReports("reserve") \cup NoLeakReport("reserve"))
+
 OnEnd(e) ==
   LET left == {i \in 1..Len(st.blocks) : st.blocks[i].live /\ ~st.blocks[i].st}
   IN Result(st, Chk(left = {}, "C05", "NoBlockLeftAtEnd", <<left>>)
@@ -558,6 +576,7 @@ Apply(e) ==
     [] e.e = "destroy" -> OnDestroy(e)
     [] e.e = "sweep" -> OnSweep(e)
     [] e.e = "drain" -> OnDrain(e)
+    [] e.e = "reserve" -> OnReserve(e)
     [] e.e = "ablk" -> OnAblk(e)
     [] e.e = "dblk" -> OnDblk(e)
     [] e.e = "aown" -> OnAown(e)
